@@ -503,7 +503,7 @@ pub struct Sim {
     /// context (time driver, paused clock) that tokio::time needs when the code
     /// under test uses it, and its paused clock is advanced in step with the
     /// simulated clock (DESIGN.md 10.6)
-    rt: tokio::runtime::Runtime,
+    rt: Option<tokio::runtime::Runtime>,
     rt_base: tokio::time::Instant,
     park: Arc<Mutex<Option<Waker>>>,
     pub tokio_timer_wakes: u64,
@@ -528,6 +528,7 @@ impl Sim {
         let rt = tokio::runtime::Builder::new_current_thread()
             .enable_time()
             .start_paused(true)
+            .rng_seed(tokio::runtime::RngSeed::from_bytes(&spec.seed.to_le_bytes()))
             .build()
             .expect("tokio runtime for the time driver");
         let rt_base = {
@@ -535,7 +536,7 @@ impl Sim {
             tokio::time::Instant::now()
         };
         Sim {
-            rt,
+            rt: Some(rt),
             rt_base,
             park: Arc::new(Mutex::new(None)),
             tokio_timer_wakes: 0,
@@ -558,7 +559,10 @@ impl Sim {
         fut: impl Future<Output = ()> + 'static,
     ) -> TaskId {
         let id = self.tasks.len();
-        self.tasks.push(Some(Box::pin(fut)));
+        // (the whole simulation is one task of the tokio runtime: tokio's
+        // cooperative budget, meant for its own scheduler, must not make the
+        // simulated tasks' channel and mutex operations return Pending)
+        self.tasks.push(Some(Box::pin(tokio::task::unconstrained(fut))));
         self.names.push(name);
         let w = Waker::from(Arc::new(TaskWaker {
             id,
@@ -584,7 +588,8 @@ impl Sim {
     /// disconnecting HTTP client does to a handler).
     pub fn cancel(&mut self, id: TaskId) {
         {
-            let _g = self.rt.enter();
+            // (inside `run` the runtime context is already entered)
+            let _g = self.rt.as_ref().map(|rt| rt.enter());
             self.tasks[id] = None;
         }
         self.ready.lock().unwrap().remove(&id);
@@ -601,8 +606,10 @@ impl Sim {
     }
 
     /// One scheduling step. Returns None when nothing is runnable and no
-    /// timer is pending (quiescence).
-    pub fn step_once(&mut self) -> Option<(TaskId, bool)> {
+    /// timer is pending (quiescence). Runs inside `block_on` of the simulator's
+    /// tokio runtime (see `run`): the runtime context (time driver, seeded RNG
+    /// for `tokio::select!`) is the one the code under test finds.
+    async fn step_async(&mut self) -> Option<(TaskId, bool)> {
         loop {
             let ready: Vec<usize> = self.ready.lock().unwrap().iter().copied().collect();
             if !ready.is_empty() {
@@ -626,10 +633,7 @@ impl Sim {
                 let mut cx = Context::from_waker(&waker);
                 let st = bump_step();
                 self.steps += 1;
-                let res = {
-                    let _g = self.rt.enter();
-                    catch(self.names[id], || fut.as_mut().poll(&mut cx))
-                };
+                let res = catch(self.names[id], || fut.as_mut().poll(&mut cx));
                 let done = match res {
                     Ok(Poll::Ready(())) => true,
                     Ok(Poll::Pending) => false,
@@ -649,7 +653,7 @@ impl Sim {
             // nothing runnable: park until the earliest timer — of the simulator or
             // of tokio's time driver, whichever comes first on the shared time line
             let next_sim: Option<u64> = TIMERS.with(|t| t.borrow().peek().map(|e| e.0.at));
-            match self.park(next_sim) {
+            match self.park(next_sim).await {
                 Parked::Nothing => return None,
                 Parked::TaskWoken => {
                     self.tokio_timer_wakes += 1;
@@ -697,7 +701,6 @@ impl Sim {
     }
 
     fn tokio_now_ns(&self) -> u64 {
-        let _g = self.rt.enter();
         tokio::time::Instant::now().saturating_duration_since(self.rt_base).as_nanos() as u64
     }
 
@@ -705,34 +708,29 @@ impl Sim {
     /// earliest one (`next_sim`), a timer of the code under test registered with
     /// tokio's driver, or — when neither exists — a sentinel far in the future,
     /// which means the system is quiescent.
-    fn park(&mut self, next_sim: Option<u64>) -> Parked {
+    async fn park(&mut self, next_sim: Option<u64>) -> Parked {
         const SENTINEL_NS: u64 = 400 * 86_400 * 1_000_000_000;
         let base = self.rt_base;
-        let ready = self.ready.clone();
-        let park = self.park.clone();
-        let now = now_ns();
-        let r = self.rt.block_on(async move {
-            let wake = WaitWake { ready, park };
-            let sentinel = tokio::time::sleep_until(base + std::time::Duration::from_nanos(now.saturating_add(SENTINEL_NS)));
-            match next_sim {
-                Some(at) => {
-                    let sim = tokio::time::sleep_until(base + std::time::Duration::from_nanos(at));
-                    tokio::select! {
-                        biased;
-                        _ = wake => Parked::TaskWoken,
-                        _ = sim => Parked::SimTimer,
-                        _ = sentinel => Parked::Nothing,
-                    }
-                }
-                None => {
-                    tokio::select! {
-                        biased;
-                        _ = wake => Parked::TaskWoken,
-                        _ = sentinel => Parked::Nothing,
-                    }
+        let wake = WaitWake { ready: self.ready.clone(), park: self.park.clone() };
+        let sentinel = tokio::time::sleep_until(base + std::time::Duration::from_nanos(now_ns().saturating_add(SENTINEL_NS)));
+        let r = match next_sim {
+            Some(at) => {
+                let sim = tokio::time::sleep_until(base + std::time::Duration::from_nanos(at));
+                tokio::select! {
+                    biased;
+                    _ = wake => Parked::TaskWoken,
+                    _ = sim => Parked::SimTimer,
+                    _ = sentinel => Parked::Nothing,
                 }
             }
-        });
+            None => {
+                tokio::select! {
+                    biased;
+                    _ = wake => Parked::TaskWoken,
+                    _ = sentinel => Parked::Nothing,
+                }
+            }
+        };
         *self.park.lock().unwrap() = None;
         r
     }
@@ -744,19 +742,24 @@ impl Sim {
         step_cap: u64,
         mut hook: impl FnMut(&mut Sim, TaskId, bool) -> bool,
     ) -> RunEnd {
-        loop {
-            if self.steps >= step_cap {
-                return RunEnd::StepCap;
-            }
-            match self.step_once() {
-                None => return RunEnd::Quiescent,
-                Some((id, done)) => {
-                    if !hook(self, id, done) {
-                        return RunEnd::Stopped;
+        let rt = self.rt.take().expect("the simulator's runtime");
+        let r = rt.block_on(async {
+            loop {
+                if self.steps >= step_cap {
+                    return RunEnd::StepCap;
+                }
+                match self.step_async().await {
+                    None => return RunEnd::Quiescent,
+                    Some((id, done)) => {
+                        if !hook(self, id, done) {
+                            return RunEnd::Stopped;
+                        }
                     }
                 }
             }
-        }
+        });
+        self.rt = Some(rt);
+        r
     }
     pub fn pending_timers(&self) -> usize {
         TIMERS.with(|t| t.borrow().len())
@@ -767,7 +770,7 @@ impl Drop for Sim {
     fn drop(&mut self) {
         // drop the tasks before the timers so that no waker outlives the run
         {
-            let _g = self.rt.enter();
+            let _g = self.rt.as_ref().map(|rt| rt.enter());
             self.tasks.clear();
         }
         TIMERS.with(|t| t.borrow_mut().clear());
